@@ -586,6 +586,21 @@ def history_cases(ck):
         c["_kind"] = "history:edit-in-place"
         c["_expect_segs"] = base
         out.append(c)
+        # lookups by id, then a leaf's Segment OBJECT is replaced by a fresh one with the same id and another distal point
+        # (the number of segments is unchanged), caches refreshed the documented way: every query must see the new object
+        leafid = rng.choice(ref["tips"])
+        ap = ref["aprox"][leafid]
+        newd = (ap[0], ap[1], ap[2] + rng.choice([1, 2, 3, 5]), F(1))
+        changed = [[x[0], x[1], x[2], x[3], (newd if x[0] == leafid else x[4])] for x in segs]
+        c = make_case(rng, changed, extra_bad=False)
+        c["segs"] = case_payload([list(x) for x in segs], [], None, [], [], [])["segs"]
+        # keep the document order of the original list (make_case keeps the order it is given)
+        c["history"] = [rng.choice([["lookups"], ["all_queries"], ["query", "get_segment_length"]]),
+                        ["replace_segments", [[leafid, [exact_float(v) for v in newd]]], True]]
+        c["graph_first"] = bool(t % 2)
+        c["_kind"] = "history:lookups+replace-segment-object"
+        c["_expect_segs"] = c["_segs"]
+        out.append(c)
     return out
 
 
